@@ -192,6 +192,32 @@ func (e *specEnv) callExpr(n *ECall, hint types.Type) sv {
 		argn(1)
 		return sv{Val: Val{t: "(" + sym + " " + e.term(e.eval(n.Args[0], tInt), tInt) + ")", typ: tInt}}
 	}
+	switch n.Fun {
+	case "held", "heldW", "heldR", "unheld":
+		argn(1)
+		return sv{Val: Val{t: e.heldTerm(n.Fun, n.Args[0]), typ: tBool}}
+	}
+	if n.Fun == "visited" {
+		// visited(k): key k has been produced by the nearest enclosing map range loop
+		argn(1)
+		if e.fr == nil || e.at == nil {
+			sfail("visited() is only available in loop invariants")
+		}
+		var ri *rangeInfo
+		for b := e.at; b != nil && ri == nil; b = b.Idom() {
+			for i := len(b.Instrs) - 1; i >= 0; i-- {
+				if r, ok := b.Instrs[i].(*ssa.Range); ok && e.fr.ranges[r] != nil {
+					ri = e.fr.ranges[r]
+					break
+				}
+			}
+		}
+		if ri == nil {
+			sfail("visited(): no enclosing map range")
+		}
+		k := e.term(e.eval(n.Args[0], ri.mt.Key()), ri.mt.Key())
+		return sv{Val: Val{t: fmt.Sprintf("(select %s %s)", e.st.get(u, ri.key), k), typ: tBool}}
+	}
 	if n.Fun == "callarg" {
 		// callarg(Name, k, i): i-th argument (0 = receiver for methods) of the k-th call (1-based) to a function named Name
 		if len(n.Args) != 3 || e.fr == nil {
